@@ -54,7 +54,9 @@ var (
 	patterns = []string{"/a", "/b/{id}", "/c", "/a/b"}
 	witness  = map[string]string{"/a": "/a", "/b/{id}": "/b/7", "/c": "/c", "/a/b": "/a/b"}
 	msets    = [][]string{{"GET"}, {"TRACE"}, {"GET", "TRACE"}, {"POST", "TRACE", "PUT"}, {"POST"}, nil, {"DELETE"}}
-	bodies   = []string{"", "plain", `<script>alert("x")</script>`, "a&b'c", "\x00\xff<>", strings.Repeat("<", 300), "100% %s %d %v %!", "a%20b"}
+	bodies   = []string{"", "plain", `<script>alert("x")</script>`, "a&b'c", "\x00\xff<>", strings.Repeat("<", 300), "100% %s %d %v %!", "a%20b",
+		// dumps of a length beyond the usual, metacharacters at every offset modulo any buffer size
+		strings.Repeat("ab<\"&'>", 1500), strings.Repeat("x", 4090) + "\"&<>'" + strings.Repeat("y&", 5000), strings.Repeat("plain-", 20000)}
 )
 
 func gen(t *rapid.T) Case {
@@ -78,7 +80,7 @@ func gen(t *rapid.T) Case {
 		q.Header = map[string][]string{}
 		for j, m := 0, rapid.IntRange(0, 3).Draw(t, "nh"); j < m; j++ {
 			k := rapid.SampledFrom([]string{"X-A", "Accept", "Cookie", "X-<b>", "Content-Type"}).Draw(t, "hk")
-			q.Header[k] = append(q.Header[k], rapid.SampledFrom([]string{"1", "<i>&\"'", "a=b; c=d", "text/html", "", "q=100%", "%v%s"}).Draw(t, "hv"))
+			q.Header[k] = append(q.Header[k], rapid.SampledFrom([]string{"1", "<i>&\"'", "a=b; c=d", "text/html", "", "q=100%", "%v%s", strings.Repeat("k=<v>&", 1400)}).Draw(t, "hv"))
 		}
 		q.Body = rapid.SampledFrom(bodies).Draw(t, "body")
 		q.Host = rapid.SampledFrom([]string{"", "example.com", "<host>"}).Draw(t, "host")
